@@ -35,6 +35,7 @@ from .model.profile_data import ProfileData
 from .model.run_id      import RunId
 from .output            import UIError
 from .rebenchdb         import get_current_time
+from .ui                import escape_braces
 
 if TYPE_CHECKING:
     from .ui import UI
@@ -226,9 +227,13 @@ class _FilePersistence(_ConcretePersistence):
         if not os.path.exists(self._data_filename):
             self._start_time = None
             return
-        # pylint: disable-next=unspecified-encoding
-        with open(self._data_filename, "r") as data_file:
-            self._start_time = self._read_first_meta_block(data_file)
+        try:
+            # pylint: disable-next=unspecified-encoding
+            with open(self._data_filename, "r") as data_file:
+                self._start_time = self._read_first_meta_block(data_file)
+        except OSError as err:
+            raise UIError("The data file %s could not be read. %s.\n"
+                          % (escape_braces(str(self._data_filename)), err.strerror), err)
 
     @staticmethod
     def _read_first_meta_block(data_file):
